@@ -7,6 +7,7 @@ CONSTANTS
   Texts = {1, 2}
   Keys = {"k1", "k2"}
   MaxLevel = 3
+  NameVectors <- NoVectors
   InitMode = "templates"
   LogFields = {"name", "kids", "ns", "content", "tail", "prefix", "attrs", "extras", "store"}
   Ops = {"copy", "add_child", "insert", "remove_child", "remove_children", "shift", "add_namespace", "remove_namespace",
